@@ -215,4 +215,7 @@ SRI_EDGE = [
     "xxh3-AAAA", "xxh3-AAA=", "sha1-2jmj7l5rSw0yVb/vlWAYkK/YBwk=", "sha1-2jmj7l5rSw0yVb/vlWAYkK/YBwl=", "sha1-====", "sha1-AAAA====", "sha1-=AAA", "sha1-AA=A",
     "sha1-AAAAA===", "sha1-AAAAAAAAA===", "sha1-AAAAAA/=", "sha1-AAAAA/==", "sha1-AAAAAA+=", "sha1-AAAAA+==", "sha1-AAAAAA9=", "sha1-AAAAAA0=", "sha1-AAAAA0==", "sha1-AAAAAAz=",
     "sha1-AAAAAAw=", "sha1-AAAAAg==", "sha1-AAAAAw==", "sha1-AAAAAA8=", "sha1-AAAAAA4=", "sha1-AAAAA9==",
+    # several hashes: every one of them has to be usable (a reader may pick any of them)
+    "sha512-AAAAAAAA sha256-AAAA", "sha512-AAAAAAAA sha256-A", "sha512-AAAAAAAA sha256-AA==", "sha256-AAAA sha1-AA==", "sha1-AAAA sha512-AA==", "sha512-AAAA sha512-AA==",
+    "sha512-AA== sha512-AAAA", "sha256-AAAA sha256-AAAAAAAA", "sha1-AAAA sha1-AAA=", "sha512-AAAAAAAA sha1-AAAAAB==",
 ]
